@@ -6,8 +6,8 @@ from core import Case, nlist
 from pyerr import canon_call, exc_code
 
 PROP = 'C07'
-COQ_TARGETS = ['theories/ApciFacts.vo', 'theories/ApciHdr.vo', 'theories/ApciDec.vo', 'theories/ApciTypes.vo']
-COQ_IMPORTS = 'From Bac Require Import Base PyRt Apci.\nFrom BacGen Require Import ApduFns.'
+COQ_TARGETS = ['theories/ApciFacts.vo', 'theories/ApciHdr.vo', 'theories/ApciDec.vo', 'theories/ApciTypes.vo', 'theories/ApciSessionFacts.vo']
+COQ_IMPORTS = 'From Bac Require Import Base PyRt Apci ApciSession.\nFrom BacGen Require Import ApduFns.'
 TABLE_OBLIGATIONS = ['maxsegs_table_std', 'maxapdu_table_std', 'enc_ms_eq', 'enc_ml_eq', 'dec_ms_range', 'dec_ml_range',
                      'dec_ms_values', 'dec_ml_values', 'maxsegs_encode_total', 'maxsegs_unspecified', 'tables_never_up']
 RULE = ('cases: APDU.encode on headers of all eight types — flag bits x all 8x16 code points (confirmed request) x octet fields from '
@@ -16,12 +16,17 @@ RULE = ('cases: APDU.encode on headers of all eight types — flag bits x all 8x
         'and of every proper prefix of a sample; headers with missing (None), negative or >255 fields and invalid types (refusals); '
         'APDU.decode of the empty string, every 1-octet string, every first octet x a boundary grid of second octets (in the '
         'thorough tier: all second octets under a confirmed-request first octet, every fifth otherwise), random longer strings; the four table functions on a grid of capabilities (all of -5..2000 in the thorough '
-        'tier) and all code points -20..20.  non-trivial = an encode that yields octets or is refused, a decode of >= 1 octet, a table '
+        'tier) and all code points -20..20; object histories (one case per session): for every PDU type x first payload empty / non-empty x '
+        'three ways of mutating the decoded object\'s pduData in place (put_data, single octet, target of another encode): decode, mutate, '
+        'decode other octets into fresh objects and into the SAME object, hand one to its typed class and mutate that, decode again, '
+        're-encode everything (objects that failed to decode are not used again).  non-trivial = an encode that yields octets or is refused, a decode of >= 1 octet, a table '
         'call; distinct by (operation, input); in the direct check: cross-product headers (distinct by construction), distinct random '
         '(header, payload) pairs, table arguments, distinct octet strings that decode to a header.  The direct check sweeps the full cross product of the property text on the implementation alone.')
 TRUSTED = ['model coq/theories/Apci.v written by hand after apdu.py:175-322 (APCI.encode/decode) and apdu.py:370-381 (APDU.encode/decode); '
            'tie = in-kernel correspondence',
            'coq/gen/ApduFns.v is AST-translated from apdu.py:58-108 on every run; the rounding theorems are about that text',
+           'object-history model coq/theories/ApciSession.v (store of objects, overlay of attributes on re-used objects, payload replaced on '
+           'decode, appended on put_data / encode-into, moved by the typed classes): hand-written, tied by the session cases',
            'spec20_1 (Apci.v) and harness spec20_1 (c07.py) are two independent hand transcriptions of clause 20.1 of ASHRAE 135']
 ASSUMPTIONS = ['header flag attributes are None/True/False and numeric attributes None or int (other Python objects are outside the model)',
                'bytes/bytearray hold octets < 256 (CPython)',
@@ -244,6 +249,229 @@ def case_table(name, arg):
                 desc={'op': name, 'arg': arg})
 
 
+# ---- object histories: a store of APDU objects and what an application does with them
+#   rich ops (JSON-friendly lists):  ['dec', o, header, payload-hex]   objs[o].decode(PDU(spec20_1(header) + payload)), o fresh or used
+#                                    ['decraw', o, hex]                the same with arbitrary octets (truncations)
+#                                    ['put', o, hex]                   objs[o].put_data(...): in-place append to the object's pduData
+#                                    ['enct', o, header, payload-hex]  a fresh APDU (header, payload) does .encode(objs[o])
+#                                    ['typed', dst, src]               objs[dst] = apdu_types[t](); objs[dst].decode(objs[src])
+#                                    ['reenc', o]                      objs[o] encoded into a fresh PDU
+def _framed(l):
+    return [len(l)] + list(l)
+
+
+def op_octets(op):
+    if op[0] == 'dec':
+        return bytes(spec20_1(_h(op[2]))) + bytes.fromhex(op[3])
+    return bytes.fromhex(op[2])
+
+
+def _h(d):
+    h = hdr(None)
+    h.update(d)
+    return h
+
+
+def impl_session(ops):
+    """run the operations on the implementation; observations framed exactly as ApciSession.step does"""
+    from bacpypes import apdu as A
+    from bacpypes.pdu import PDU
+    objs, out = {}, []
+
+    def get(o):
+        if o not in objs:
+            objs[o] = A.APDU()
+        return objs[o]
+    for op in ops:
+        k = op[0]
+        if k in ('dec', 'decraw'):
+            obj = get(op[1])
+
+            def f():
+                obj.decode(PDU(op_octets(op)))
+                return {x: getattr(obj, x) for x in FIELDS}, bytes(obj.pduData)
+            out += _framed(canon_call(f, canon_hdr))
+        elif k == 'put':
+            get(op[1]).put_data(bytes.fromhex(op[2]))
+        elif k == 'enct':
+            out += _framed(canon_call(lambda: _mk_apdu(_h(op[2]), bytes.fromhex(op[3])).encode(get(op[1])), lambda r: []))
+        elif k == 'typed':
+            src = get(op[2])
+            dst = A.apdu_types[src.apduType]()
+            dst.decode(src)
+            objs[op[1]] = dst
+        elif k == 'reenc':
+            obj = get(op[1])
+
+            def g():
+                pdu = PDU()
+                if isinstance(obj, A._APDU):
+                    a = A.APDU()
+                    obj.encode(a)
+                    a.encode(pdu)
+                else:
+                    obj.encode(pdu)
+                return bytes(pdu.pduData)
+            out += _framed(canon_call(g, list))
+        else:
+            raise AssertionError(op)
+    return out
+
+
+def coq_op(op):
+    k = op[0]
+    if k in ('dec', 'decraw'):
+        return '(OpDecode %d%%nat %s)' % (op[1], nlist(op_octets(op)))
+    if k == 'put':
+        return '(OpPut %d%%nat %s)' % (op[1], nlist(bytes.fromhex(op[2])))
+    if k == 'enct':
+        return '(OpEncodeInto %d%%nat %s %s)' % (op[1], coq_hdr(_h(op[2])), nlist(bytes.fromhex(op[3])))
+    if k == 'typed':
+        return '(OpTyped %d%%nat %d%%nat)' % (op[1], op[2])
+    if k == 'reenc':
+        return '(OpReencode %d%%nat)' % op[1]
+    raise AssertionError(op)
+
+
+def case_session(ops, kind='history'):
+    exp = impl_session(ops)
+    return Case(kind, 'canon_session [%s]' % '; '.join(coq_op(o) for o in ops), exp, key=('session', repr(ops)),
+                nontrivial=True, desc={'op': 'session', 'session': ops})
+
+
+def _hd(h):
+    return {k: h[k] for k in FIELDS if h[k] is not None}
+
+
+def history_sessions(rng, variants):
+    """for every PDU type x first payload empty / non-empty x way of mutating the decoded object in place:
+    decode -> mutate that object's pduData -> decode other octets (header-only and with payload) into fresh objects
+    and into the SAME object -> hand one to its typed class, mutate that too, decode again -> re-encode everything"""
+    out = []
+    pay = lambda: bytes(rng.randrange(256) for _ in range(rng.choice([1, 2, 5])))
+    for t1 in range(8):
+        for first_empty in (True, False):
+            for mut in ('put', 'enct', 'put-one'):
+                for v in range(variants):
+                    ops = []
+                    ops.append(['dec', 0, _hd(random_header(rng, t1)), '' if first_empty else pay().hex()])
+                    if mut == 'put':
+                        ops.append(['put', 0, pay().hex()])
+                    elif mut == 'put-one':
+                        ops.append(['put', 0, bytes([rng.randrange(256)]).hex()])
+                    else:
+                        ops.append(['enct', 0, _hd(random_header(rng)), pay().hex() if rng.random() < 0.5 else ''])
+                    # other octets into fresh objects: one header-only, one with payload
+                    t2 = (t1 + 1 + 3 * v) % 8
+                    ops.append(['dec', 1, _hd(random_header(rng, t2)), ''])
+                    ops.append(['dec', 2, _hd(random_header(rng)), pay().hex()])
+                    # ... and into the SAME object (payload must be replaced by what is fed now)
+                    ops.append(['dec', 0, _hd(random_header(rng, (t1 + v) % 8)), '' if rng.random() < 0.6 else pay().hex()])
+                    # the stack's next step: typed class takes the decoded APDU; the application scribbles on that too
+                    ops.append(['typed', 10, 1])
+                    ops.append(['put', 10, pay().hex()])
+                    ops.append(['dec', 3, _hd(random_header(rng, rng.choice([2, 4, 6, 7]))), ''])
+                    if rng.random() < 0.3:
+                        bs = op_octets(ops[-1])
+                        ops.append(['decraw', 4, bs[:rng.randrange(len(bs))].hex()])     # short buffer mid-history
+                    ops.append(['dec', 5, _hd(random_header(rng, t1)), ''])
+                    for o in (0, 2, 3, 5, 10):
+                        ops.append(['reenc', o])
+                    out.append(ops)
+    return out
+
+
+DEMO_SESSION = [['dec', 0, {'apduType': 6, 'apduInvokeID': 7, 'apduAbortRejectReason': 4}, ''], ['put', 0, 'dead'],
+                ['enct', 0, {'apduType': 0, 'apduSeg': False, 'apduMor': False, 'apduSA': False, 'apduMaxSegs': 0, 'apduMaxResp': 5,
+                             'apduInvokeID': 3, 'apduService': 12}, '0c008000011955']] + \
+               [['dec', 1 + t, _hd_, ''] for t, _hd_ in enumerate([
+                   {'apduType': 0, 'apduSeg': False, 'apduMor': False, 'apduSA': True, 'apduMaxSegs': 4, 'apduMaxResp': 5, 'apduInvokeID': 128, 'apduService': 12},
+                   {'apduType': 1, 'apduService': 8}, {'apduType': 2, 'apduInvokeID': 255, 'apduService': 15},
+                   {'apduType': 3, 'apduSeg': True, 'apduMor': True, 'apduInvokeID': 1, 'apduSeq': 127, 'apduWin': 16, 'apduService': 14},
+                   {'apduType': 4, 'apduNak': True, 'apduSrv': True, 'apduInvokeID': 0, 'apduSeq': 255, 'apduWin': 1},
+                   {'apduType': 5, 'apduInvokeID': 127, 'apduService': 12}, {'apduType': 6, 'apduInvokeID': 7, 'apduAbortRejectReason': 4},
+                   {'apduType': 7, 'apduSrv': True, 'apduInvokeID': 128, 'apduAbortRejectReason': 11}])] + \
+               [['reenc', o] for o in range(0, 9)]
+
+
+def check_session(ops):
+    """implementation only: 'payload untouched' and 'fields restored' judged against the octets that were fed, at the
+    moment of decoding and again when everything is re-encoded at the end; in-place appends are expected to show in
+    the object they were made on and nowhere else"""
+    from bacpypes import apdu as A
+    from bacpypes.pdu import PDU
+    from bacpypes.errors import DecodingError
+    objs, exp = {}, {}
+
+    def get(o):
+        if o not in objs:
+            objs[o] = A.APDU()
+        return objs[o]
+
+    def fail(kind, i, **kw):
+        d = {'kind': kind, 'session': ops, 'step': i, 'op': ops[i]}
+        d.update(kw)
+        return d
+    for i, op in enumerate(ops):
+        k = op[0]
+        try:
+            if k == 'dec':
+                h, payload = _h(op[2]), bytes.fromhex(op[3])
+                obj = get(op[1])
+                obj.decode(PDU(op_octets(op)))
+                if bytes(obj.pduData) != payload:
+                    return fail('history-payload-changed', i, fed=payload.hex(), got=bytes(obj.pduData).hex())
+                if obj.apduType != h['apduType']:
+                    return fail('history-field-not-restored', i, field='apduType', got=obj.apduType)
+                for f in relevant(h):
+                    v = getattr(obj, f)
+                    if v is None or canon_field(v) != canon_field(h[f]):
+                        return fail('history-field-not-restored', i, field=f, got=v)
+                exp[op[1]] = [h, payload]
+            elif k == 'decraw':
+                exp.pop(op[1], None)
+                try:
+                    get(op[1]).decode(PDU(op_octets(op)))
+                except DecodingError:
+                    pass
+            elif k == 'put':
+                get(op[1]).put_data(bytes.fromhex(op[2]))
+                if op[1] in exp:
+                    exp[op[1]][1] = exp[op[1]][1] + bytes.fromhex(op[2])
+            elif k == 'enct':
+                h2, p2 = _h(op[2]), bytes.fromhex(op[3])
+                _mk_apdu(h2, p2).encode(get(op[1]))
+                if op[1] in exp:
+                    exp[op[1]][1] = exp[op[1]][1] + bytes(spec20_1(h2)) + p2
+            elif k == 'typed':
+                src = get(op[2])
+                dst = A.apdu_types[src.apduType]()
+                dst.decode(src)
+                objs[op[1]] = dst
+                if op[2] in exp:
+                    exp[op[1]] = list(exp.pop(op[2]))        # the payload moves to the typed object
+                    if bytes(dst.pduData) != exp[op[1]][1]:
+                        return fail('history-payload-changed', i, fed=exp[op[1]][1].hex(), got=bytes(dst.pduData).hex())
+            elif k == 'reenc':
+                if op[1] not in exp:
+                    continue
+                obj = get(op[1])
+                pdu = PDU()
+                if isinstance(obj, A._APDU):
+                    a = A.APDU()
+                    obj.encode(a)
+                    a.encode(pdu)
+                else:
+                    obj.encode(pdu)
+                h, payload = exp[op[1]]
+                want = bytes(spec20_1(h)) + payload
+                if bytes(pdu.pduData) != want:
+                    return fail('history-reencode', i, got=bytes(pdu.pduData).hex(), want=want.hex())
+        except Exception as e:
+            return fail('history-exception', i, exc=repr(e)[:200])
+    return None
+
+
 # ---- generators
 def product_headers(ty, octs=OCT):
     """full cross product of flag bits x code points x boundary octets for one type"""
@@ -425,6 +653,10 @@ def cases(rng, tier):
         if rng.random() < 0.7:
             bs[0] = (rng.randrange(8) << 4) | rng.randrange(16)
         out.append(case_dec(bytes(bs), 'dec-random'))
+    # object histories (one case per session)
+    out.append(case_session(DEMO_SESSION))
+    for ops in history_sessions(rng, 6 if big else 2):
+        out.append(case_session(ops))
     # code tables
     for n in table_args(rng, tier):
         out.append(case_table('encode_max_segments_accepted', n))
@@ -635,6 +867,17 @@ def direct(rng, tier, focus=()):
         n += 2
         seen_random.add((tuple(canon_field(h[k]) for k in FIELDS), payload))
     nontriv += len(seen_random)          # cross-product headers above are distinct by construction
+    # (a') object histories: decode -> mutate the decoded object in place -> decode again (fresh and same object) -> re-encode all
+    sess = [DEMO_SESSION] + history_sessions(rng, 40 if big else 8)
+    for ops in sess:
+        add(check_session(ops))
+        n += len(ops)
+    nontriv += len(sess)
+    samples.append({'direct': 'object histories', 'sessions': len(sess), 'first': sess[1]})
+    for d in focus:
+        if isinstance(d, dict) and d.get('op') == 'session':
+            add(check_session(d['session']))
+            n += 1
     # (b) tables
     tf, tn = check_tables()
     for f in tf:
@@ -704,7 +947,12 @@ def replay(payload):
             elif isinstance(b, dict):
                 print('broken:', b.get('what'))
     print('replay', f)
-    if 'octets' in f and f.get('kind', '').startswith('decode') or f.get('op') == 'decode':
+    if 'session' in f:
+        ops = f['session']
+        print('implementation session:', impl_session(ops))
+        print('model session         :', _model('canon_session [%s]' % '; '.join(coq_op(o) for o in ops)))
+        print('direct predicate:', {k: v for k, v in (check_session(ops) or {}).items() if k != 'session'} or None)
+    elif 'octets' in f and f.get('kind', '').startswith('decode') or f.get('op') == 'decode':
         print('implementation decode:', impl_decode(bytes.fromhex(f['octets'])))
         print('model decode         :', _model('canon_dec (dec_apci %s)' % nlist(bytes.fromhex(f['octets']))))
         print('direct predicate:', check_arbitrary(bytes.fromhex(f['octets']))[0])
